@@ -3,6 +3,7 @@ mod exact;
 mod lm;
 mod props;
 mod solve;
+mod textref;
 
 use crate::core::Run;
 
@@ -61,6 +62,9 @@ fn main() {
     }
     match id.as_str() {
         "C04" | "C05" => props::c04_c05::run(&id, run),
+        "C09" => props::c09::run(run),
+        "C11" => props::c11::run(run),
+        "C12" => props::c12::run(run),
         "C13" => props::c13::run(run),
         "C14" => props::c14::run(run),
         #[cfg(feature = "vclock")]
